@@ -628,7 +628,8 @@ func genForge(r *rand.Rand, id string, size int, total int) []string {
 			write(hw)
 			q := members[g.pick(len(members))]
 			route := []string{"sync", "pub", "dc"}[g.pick(3)]
-			g.add("forge %d recipe=reencode base=%d", att, hw)
+			// (written again with other bytes, or under the version number 0, which decodes and has no encoding)
+			g.add("forge %d recipe=reencode base=%d%s", att, hw, []string{"", " how=v0"}[g.pick(2)])
 			g.add("forge %d recipe=honest base=%d extra=@last k=%s v=%s", colluder, colluder, hx(keys[0]), hx(g.value()))
 			g.add("inject %d heads=@last route=%s from=%d", q, route, colluder)
 		case c < 59 && colluder >= 0:
